@@ -31,14 +31,15 @@ REGISTRY = dict(
           "sum eps/(1-a^2); the cached sample-and-log-prob path equals log_prob(sample); softmax sums to one; total mass over the whole product space is 1 for MultiCategorical and Bernoulli "
           "(induction on the number of dimensions) and their entropy() is E[-log_prob] over that space; log_prob is the sum over dimensions / joint density the product; mode maximises for "
           "Gaussian (mean), categorical (any argmax), multi-categorical, Bernoulli (round(p), ties allowed); Gaussian entropy sum formula; expln > 0, gSDE variance >= 0, std > 0. "
-          "Refuted (finding): mode() of the tanh-squashed Gaussian is tanh(mean), which is not the maximiser of the action-space density. "
+          "Known finding F12 (signature squashed-mode-is-tanh-of-mean-not-density-maximiser, refuted in Coq and reproduced on the implementation): mode() of the tanh-squashed Gaussian / gSDE with "
+          "squash_output is tanh(mean), which is not the maximiser of the action-space density. "
           "Partial: torch's Normal/Categorical/Bernoulli base formulas are compared numerically (Interval-checked goals), not proved to integrate to one (Gaussian integral unavailable); "
           "'samples follow that density' is decided only through the reparametrisation identity of the recorded draw and 6-sigma statistics."),
     note=("Axioms reported by Print Assumptions for Props/C14.v: ClassicalDedekindReals.sig_forall_dec, ClassicalDedekindReals.sig_not_dec, "
           "FunctionalExtensionality.functional_extensionality_dep, Classical_Prop.classic (Coq standard library real numbers, used by every theorem incl. the Q2R fragment lemmas); "
           "the refuted witness is proved by hand from 1+x <= exp x (no Interval). Only the generated correspondence goals (coq/Gen/Cases_C14_*.v) use Coq-Interval, i.e. the primitive "
           "PrimInt63/PrimFloat operations and their Uint63.*_spec / FloatAxioms.*_spec axioms. Trusted: Coq 8.16.1 kernel (vm_compute inside Interval, no native_compute), Coquelicot 3 / Interval 4 libraries, "
-          "translate/py2coq.py + specs/dist.py, harness/c14.py, Python/torch. Not verified: float64 rounding (tolerance rel 1e-9), float32 saturation of tanh, the sampling law."),
+          "translate/py2coq.py + specs/dist.py, harness/c14.py, Python/torch. Not verified: float64 rounding (tolerance rel 1e-9), exact float32 rounding, the sampling law (reparametrisation identity + 6-sigma statistics only)."),
     technique="machine-checked proof in Coq over R (Coquelicot is_derive, induction over dimensions) + regenerated-fragment interface lemmas + Coq-Interval-checked numerical correspondence",
 )
 
@@ -1313,7 +1314,7 @@ def main():
     chk.coverage["traces_validated_against_impl"] = len(cases)
     nontriv = sum(1 for c in cases if c.get("b", 0) >= 2 or c.get("d", 0) >= 2 or c.get("n", 0) >= 3 or len(c.get("dims", [])) >= 2)
     chk.coverage["distinct_nontrivial"] = nontriv
-    chk.coverage["rule"] = ("random parameter tensors in float64 (means +-3, log-stds -5..2 incl. 0 / extremes, logits up to +-30, batch 1-8 and un-batched, dims 1-6, squashed actions up to |a| = 1-1e-4, "
+    chk.coverage["rule"] = ("random parameter tensors in float64 (means +-3, log-stds -5..2 incl. 0 / extremes, logits up to +-30, batch 1-8 and un-batched, dims 1-6, squashed actions up to |a| = 1-1e-13 in float64 and up to the last float32 below 1, exactly +-1, "
                             "gSDE full_std/expln/squash, epsilons); every returned log_prob / entropy / std / sample entry becomes an Interval-checked Coq goal (rel 1e-9); "
                             "non-trivial = batch >= 2 or >= 2 action dimensions / >= 3 categories; evaluations = Coq goals + Python oracle checks")
     chk.notes["input_distribution"] = hist
@@ -1324,7 +1325,7 @@ def main():
         "float64 rounding of torch kernels is not modelled: goals compare at rel 1e-9 (abs 1e-9 below 1)",
         "torch Normal/Categorical/Bernoulli base formulas are compared, not proved to integrate to one (numerical integration oracle on fixed 1-D configurations only)",
         "'samples follow the density' is decided by the reparametrisation identity of the recorded torch draw and 6-sigma moment/frequency tests (20000 samples, fixed configurations)",
-        "float32 saturation of tanh beyond |u| ~ 8 and actions exactly at +-1 are outside the compared range",
+        "float32 results are compared with the float64 model at abs 0.05 + rel 2e-3 only (near-boundary block); exact float32 rounding is not modelled",
     ]
     if _cov is not None:
         chk.notes["branch_coverage"] = _cov.stop()
